@@ -97,7 +97,7 @@ def sem_job(e, p):
     kind = oracle_kind(proc)
     if kind == 'grounded':
         g = got[0]
-        spec = A.lfp(tabs, n)
+        spec = A.oracle_lfp(p['fam'], tabs, n)
         conds = []
         for s in range(n):
             wt, wf = spec[s]
@@ -109,11 +109,9 @@ def sem_job(e, p):
             exp = ''.join('T' if mbool(m, spec[s][0]) else 'F' if mbool(m, spec[s][1]) else 'u' for s in range(n))
             report(e, 'wrong-grounded', what='grounded = %s, least fixpoint = %s' % (g, exp), case=concrete_case(m, tabs, p), expected=[exp], observed=got)
         return {'proc': proc, 'result': got, 'nodes': len(bdd_nodes(e, bdd))}
-    if kind == 'complete':
-        cands = [''.join(v) for v in itertools.product('TFu', repeat=n)]; orc = A.is_complete
-    else:
-        cands = [''.join(v) for v in itertools.product('TF', repeat=n)]; orc = A.is_stable if kind == 'stable' else A.is_model
-    phis = {v: orc(tabs, v, n) for v in cands}
+    if kind == 'complete': cands = [''.join(v) for v in itertools.product('TFu', repeat=n)]
+    else: cands = [''.join(v) for v in itertools.product('TF', repeat=n)]
+    phis = A.oracle_set(kind, p['fam'], tabs, n, cands)
     if canary: phis = {v: z3.Not(f) for v, f in phis.items()}
     gotset = set(got)
     probs = []
@@ -121,7 +119,7 @@ def sem_job(e, p):
     if any(v not in phis for v in got): probs.append('not-a-candidate')
     conds = [z3.Not(phis[v]) if v in gotset else phis[v] for v in cands]
     if kind == 'complete':
-        spec = A.lfp(tabs, n)
+        spec = A.oracle_lfp(p['fam'], tabs, n)
         if got:
             g = got[0]
             for s in range(n):
